@@ -55,15 +55,28 @@ Proof. intro Hh. now destruct (hello_fields ck h Hh) as [_ [_ [_ [_ [F5 _]]]]]. 
 
 (* ------------------------------------------------------------------ DTLS 1.2 (full, PSK, ECDHE-PSK, resumed) *)
 
-Theorem agreement12 ck sk ss cs h r f o x p :
-  pion_hello ck h -> ems_valid (k_cfg sk) ->
-  server12 sk ss h r = ROk f -> client12 ck sk cs h f = ROk o ->
+(* what the agreement needs of the server's answer [f]: it is a DTLS 1.2 answer, its EMS flags follow the hello,
+   and it selects an SRTP profile only when one was offered.  (True of [server12]'s answer and preserved by the
+   ServerHello hook of the steered leg.) *)
+Definition answer12_wf (sk : conn) (h : hello) (f : server_flight) : Prop :=
+  f_version f = v12 /\
+  f_ems f = h_ems h && negb (c_ems (k_cfg sk) =? g11_ems_disable) /\
+  f_ems_ext f = ems_requested (c_ems (k_cfg sk)) && f_ems f /\
+  (f_srtp f <> 0 -> exists ps mk, h_srtp h = Some (ps, mk)).
+
+Lemma server12_answer_wf sk ss h r f : server12 sk ss h r = ROk f -> answer12_wf sk h f.
+Proof.
+  intro Hs. pose proof (server12_ems _ _ _ _ _ Hs) as [Em1 Em2]. apply server12_spec in Hs.
+  repeat split; try assumption; [exact (s12_version _ _ _ _ Hs)|].
+  intro Hn. destruct (s12_srtp _ _ _ _ Hs Hn) as [_ [ps [mk [Ho _]]]]. eauto.
+Qed.
+
+Theorem agreement12_gen ck sk cs h f o x p :
+  pion_hello ck h -> ems_valid (k_cfg sk) -> answer12_wf sk h f ->
+  client12 ck sk cs h f = ROk o ->
   mirrored (client_view h o x) (server_view h f x p).
 Proof.
-  intros Hh Hv Hs Hc.
-  pose proof (server12_ems _ _ _ _ _ Hs) as [Em1 Em2].
-  apply server12_spec in Hs. apply client12_spec in Hc.
-  pose proof (s12_version _ _ _ _ Hs) as S1. pose proof (s12_srtp _ _ _ _ Hs) as S7b. pose proof (s12_resumed _ _ _ _ Hs) as S12.
+  intros Hh Hv [S1 [Em1 [Em2 S7b]]] Hc. apply client12_spec in Hc.
   pose proof (cl_version _ _ _ _ _ _ _ Hc) as cl_version0. pose proof (cl_suite _ _ _ _ _ _ _ Hc) as cl_suite0. pose proof (cl_group _ _ _ _ _ _ _ Hc) as cl_group0. pose proof (cl_sig _ _ _ _ _ _ _ Hc) as cl_sig0. pose proof (cl_chain _ _ _ _ _ _ _ Hc) as cl_chain0. pose proof (cl_csig _ _ _ _ _ _ _ Hc) as cl_csig0. pose proof (cl_srtp _ _ _ _ _ _ _ Hc) as cl_srtp0. pose proof (cl_srtp_none _ _ _ _ _ _ _ Hc) as cl_srtp_none0. pose proof (cl_mki_server _ _ _ _ _ _ _ Hc) as cl_mki_server0. pose proof (cl_alpn _ _ _ _ _ _ _ Hc) as cl_alpn0. pose proof (cl_ems _ _ _ _ _ _ _ Hc) as cl_ems0. pose proof (cl_ems_required _ _ _ _ _ _ _ Hc) as cl_ems_required0. pose proof (cl_cid _ _ _ _ _ _ _ Hc) as cl_cid0. pose proof (cl_exts _ _ _ _ _ _ _ Hc) as cl_exts0. pose proof (cl_flags _ _ _ _ _ _ _ Hc) as cl_flags0.
   unfold client_view, server_view, mirrored. rewrite cl_cid0.
   destruct (cid_pair (decide_cid h (f_cid_ext f) (f_rrc_ext f))) as [[cc sc] rrc]. cbn.
@@ -76,8 +89,32 @@ Proof.
     destruct (N.eq_dec (o_srtp o) 0) as [Hz|Hz].
     + rewrite Hz. destruct (cl_srtp_none0 Hz) as [Hf|Hn]; [congruence|].
       destruct (N.eq_dec (f_srtp f) 0) as [Hf|Hf]; [congruence|].
-      destruct (S7b Hf) as [_ [ps [mk [Ho _]]]]. congruence.
+      destruct (S7b Hf) as [ps [mk Ho]]. congruence.
     + now destruct (cl_srtp0 Hz).
+Qed.
+
+Theorem agreement12 ck sk ss cs h r f o x p :
+  pion_hello ck h -> ems_valid (k_cfg sk) ->
+  server12 sk ss h r = ROk f -> client12 ck sk cs h f = ROk o ->
+  mirrored (client_view h o x) (server_view h f x p).
+Proof.
+  intros Hh Hv Hs Hc. exact (agreement12_gen ck sk cs h f o x p Hh Hv (server12_answer_wf _ _ _ _ _ Hs) Hc).
+Qed.
+
+(* the ServerHello message hook: the server commits what its FINAL ServerHello says ([steer_flight t f0] - the hook's
+   ALPN selection; another cipher suite is refused), so the two views still agree whatever protocol the hook names *)
+Theorem agreement12_hooked ck sk ss cs h r f0 t o x p :
+  pion_hello ck h -> ems_valid (k_cfg sk) ->
+  server12 sk ss h r = ROk f0 -> client12 ck sk cs h (steer_flight t f0) = ROk o ->
+  mirrored (client_view h o x) (server_view h (steer_flight t f0) x p) /\
+  (t_sh_alpn t <> 0 -> w_alpn (server_view h (steer_flight t f0) x p) = t_sh_alpn t).
+Proof.
+  intros Hh Hv Hs Hc. split.
+  - apply (agreement12_gen ck sk cs h (steer_flight t f0) o x p Hh Hv); [|exact Hc].
+    pose proof (server12_answer_wf _ _ _ _ _ Hs) as W. unfold steer_flight.
+    destruct (t_sh_alpn t =? 0); [exact W | exact W].
+  - intro Hn. unfold server_view, steer_flight. apply N.eqb_neq in Hn. rewrite Hn.
+    destruct (cid_pair _) as [[a b] c]. reflexivity.
 Qed.
 
 (* hello verification: the first ClientHello is in no Finished transcript and may have been rewritten on path
@@ -217,3 +254,35 @@ Section ExporterAgreement.
     intro Hv. unfold export, export12. apply N.eqb_neq in Hv. rewrite Hv. now split.
   Qed.
 End ExporterAgreement.
+
+(* ------------------------------------------------------------------ the exporter as coded: the suite lookup *)
+
+Section ExporterAsCodedFacts.
+  Variable prf : N -> list N -> list N -> nat -> list N.
+  Variable hash_of_suite : N -> N.
+
+  (* the two sides still agree - on the bytes, or on the failure *)
+  Theorem export_as_coded_agreement vc vs secret_c secret_s label n :
+    mirrored vc vs -> secret_c = secret_s ->
+    export_as_coded prf hash_of_suite true vc secret_c label n = export_as_coded prf hash_of_suite false vs secret_s label n.
+  Proof.
+    intros M Hs. unfold export_as_coded. pose proof M as [_ [M2 _]]. rewrite M2.
+    destruct (known_suite (w_suite vs)); [|reflexivity]. f_equal. now apply exporter_agreement.
+  Qed.
+
+  (* keying material is available exactly for the built-in suites ... *)
+  Theorem export_as_coded_available is_client v secret label n :
+    export_as_coded prf hash_of_suite is_client v secret label n <> None <-> known_suite (w_suite v) = true.
+  Proof. unfold export_as_coded. destruct (known_suite (w_suite v)); split; congruence. Qed.
+
+  (* ... so "exported keying material for every label" fails for a session negotiated on a user-supplied suite
+     (WithCustomCipherSuites; 0xFFFE is the private identifier the harness uses): both sides get an error *)
+  Theorem export_unavailable_on_custom_suite_refuted :
+    exists suite, known_suite suite = false /\
+      forall is_client v secret label n, w_suite v = suite ->
+        export_as_coded prf hash_of_suite is_client v secret label n = None.
+  Proof.
+    exists 65534. split; [vm_compute; reflexivity|].
+    intros is_client v secret label n Hs. unfold export_as_coded. rewrite Hs. reflexivity.
+  Qed.
+End ExporterAsCodedFacts.
